@@ -148,6 +148,8 @@ ACTIONS_MIXED = ["~ + @.b", "{ if @.flag { ~ } else { 0 } }", "m!(~, @)", "(|p: 
 class G:
     def __init__(self, seed, profile):
         self.r = random.Random(seed)
+        # a second stream for features added late: what the first stream generates stays what it was
+        self.r2 = random.Random(f"{seed}-aux")
         self.p = profile
 
     def ch(self, xs):
@@ -538,7 +540,9 @@ class G:
                         else:
                             vat.insert(len(vat) - 1, p2)
                     if self.pr("pat_into", 0.8):
-                        vat.append(Instr(self.ch(["into", "owned_into", "ref_into"]), "{ " + str(k) + " }", tag=("mmap", None)))
+                        # mostly an expression; now and then a name alone (the arm would be empty: a diagnostic since fix 08c970f)
+                        body = "{ " + str(k) + " }" if self.r2.random() < 0.85 else self.r2.choice([f"W{k}", f"W{k}, {{ {k} }}"])
+                        vat.append(Instr(self.ch(["into", "owned_into", "ref_into"]), body, tag=("mmap", None)))
                 if self.pr("prim_ghost", 0.0):
                     vat.append(self.ghost_instr(cparts, with_default=self.pr("ghost_default", 0.7)))
             else:
